@@ -230,7 +230,7 @@ def mk_conditional(kind, rng, R, Dy, Dx, kappa=None, zero_M=False, Du=2):
         return obj, Truth(M=M, b=b, Sigma=Sig), kw
     if kind in ("full", "diag"):
         Sig = gen.spd_batch(rng, R, Dy, kappa, diag=(kind == "diag"))
-        M = gen.lin_map(rng, R, Dy, Dx, zero=zero_M)
+        M = gen.lin_map(rng, R, Dy, Dx, zero=zero_M, special=True)
         opt = rng.random(3)
         if opt[0] < 0.1 and min(Dy, Dx) > 1 and not zero_M:
             # a rank-deficient (but legal) mean map: drop the smallest singular direction
@@ -358,9 +358,11 @@ def mk_approx(kind, rng, Dy, Dx, Dk, Da=None, wscale=0.6, kappa=None, zero_w=Fal
         k = min(Dy, Da)
         sv = np.exp(np.linspace(0.0, 0.5 * np.log(A_kappa), k)) / A_kappa ** 0.25
         A = ((gen.orth(rng, Dy)[:, :k] * sv) @ gen.orth(rng, Da)[:, :k].T)[None] * yscale
-    M = gen.lin_map(rng, 1, Dy, Dx) * yscale
+    M = gen.lin_map(rng, 1, Dy, Dx, special=True) * yscale
     b = gen.vec(rng, 1, Dy) * yscale
-    W = gen.vec(rng, Dk, Dx + 1, scale=wscale)
+    # (not gen.vec: exactly zero weights are requested explicitly with zero_w - the step and
+    # rectified links divide by the weight)
+    W = rng.standard_normal((Dk, Dx + 1)) * wscale
     W[:, 0] = rng.uniform(0.2, 0.8, Dk) * rng.choice([-1.0, 1.0], Dk)
     if zero_w:
         W[:, 1:] = 0.0
